@@ -76,7 +76,7 @@ def p4_swap_remove_fixup(prog):
 
                     def vlen(t):
                         """length of the identifier Vec as seen by the pure call term t"""
-                        return L if (len(t) > 4 and t[4] is not None and t[4] <= sw_epoch) else L - 1
+                        return L if (len(t) > 4 and t[4] is not None and t[4] < sw_epoch) else L - 1
 
                     def leaf(t):
                         if t == idx_p:
